@@ -60,7 +60,7 @@ def _entry_points():
     # change afterwards (what a later write, overwrite or clear sends - text or cursor codes - is gated the same)
     # "section_of" / "section_after": quiet and verbosity are set on the OUTPUT the section is taken from, before /
     # after the section is created, and never on the section: the gate follows what the section itself reports
-    for cls, kinds in ((IO, ["io"]), (Output, ["output", "error_output"]), (SectionOutput, ["section", "section2", "section_of", "section_after", "section_hist"])):
+    for cls, kinds in ((IO, ["io", "io_section"]), (Output, ["output", "error_output"]), (SectionOutput, ["section", "section2", "section_of", "section_after", "section_hist"])):
         for name, fn in inspect.getmembers(cls, predicate=inspect.isfunction):
             if name.startswith("_"):
                 continue
@@ -113,6 +113,13 @@ def _target(case):
         target = io
         io.set_quiet(case["quiet"])
         io.set_verbosity(case["verbosity"])
+        err = case["method"].startswith("error")
+        fetch = io.fetch_error if err else io.fetch_output
+    elif kind == "io_section":
+        # BufferedIO.section() builds the section I/O and assigns its outputs afterwards
+        target = io.section()
+        target.set_quiet(case["quiet"])
+        target.set_verbosity(case["verbosity"])
         err = case["method"].startswith("error")
         fetch = io.fetch_error if err else io.fetch_output
     elif kind in ("output", "error_output"):
